@@ -4,15 +4,18 @@ from ..e1 import Harness
 
 PROP_ID = "C04"
 FEATURE = "c04"
-ENGINE = "E1 kani-cbmc"
+ENGINE = "E1 kani-cbmc + E2 mir-smt"
 QUICK_MAX_S = 125
 FUNCTIONS = ["edp_client::state_machine::HandshakeStateMachine::{begin_connect, prepare_send_name, handle_status, prepare_complement, "
              "handle_challenge, prepare_challenge_reply, handle_challenge_ack, disconnect, state, negotiated_flags}",
-             "handshake.rs SendName::encode_old, StatusMessage::decode, Challenge::decode, ChallengeReply::{new,encode}, ChallengeAck::{decode,verify}"]
-ASSUMPTIONS = ["digest::compute_digest stubbed by an injective model D(challenge, cookie) (MD5 is a trusted dependency)",
+             "handshake.rs SendName::encode_old, StatusMessage::decode, Challenge::decode, ChallengeReply::{new,encode}, ChallengeAck::{decode,verify}",
+             "E2 (stateful MIR interpreter): digest::compute_digest - the byte string fed to MD5"]
+ASSUMPTIONS = ["E1: digest::compute_digest stubbed by an injective model D(challenge, cookie) (MD5 is a trusted dependency); E2 decides separately that "
+               "compute_digest feeds MD5 exactly cookie ++ decimal(challenge) for every u32 challenge (hasher = uninterpreted accumulator, `to_string`/`format!` "
+               "modelled from their format template)",
                "digest::generate_challenge (wall clock) stubbed to an arbitrary u32",
                "std::fmt::format stubbed (error text only)", "cookie 'ck', local name 'a@b' concrete; peer name length 0 in the challenge"]
-OUTSIDE = ["Connection::connect over sockets/EPMD/timeouts, silence", "real MD5 input string (cookie ++ decimal challenge)",
+OUTSIDE = ["Connection::connect over sockets/EPMD/timeouts, silence", "MD5 itself",
            "node names/cookies other than the concrete ones, symbolic peer name length"]
 STUBS = ("#[cfg_attr(kani, kani::stub(std::fmt::format, crate::stubs::fmt_format))]\n"
          "#[cfg_attr(kani, kani::stub(edp_client::digest::compute_digest, crate::stubs::digest_model))]\n"
@@ -56,3 +59,18 @@ def generate(tier, seed):
         hs.append(Harness(n, "send_name layout (len16 counts bytes, 'n', version 5, low 32 flag bits, name bytes) for the non-ASCII/short name #%d, all flags/creation symbolic" % k,
                           unwind=24, cap_s=600))
     return "\n".join(src), hs
+
+
+def extra_checks(tier, seed):
+    from . import c04_digest
+    out = []
+    c04_digest.run(out)
+    return out
+
+
+def replay_case(case):
+    e = case.get("e2") or {}
+    if "digest_challenge" in e:
+        from . import c04_digest
+        return c04_digest.replay(e["digest_challenge"])
+    return None
